@@ -1,0 +1,109 @@
+//! Verification hooks (compiled only with `--cfg fuellabs_sway_verif`).
+//!
+//! Everything here is inert unless an environment variable or an installed
+//! controller turns it on: `trace` appends one JSON line to `$SWAY_VERIF_TRACE`,
+//! `step` traces and then blocks on the installed controller, `fault` counts
+//! fault points and crashes / fails at the one selected by the environment.
+
+use std::io::Write;
+use std::sync::atomic::{AtomicU64, Ordering};
+use std::sync::{Mutex, OnceLock, RwLock};
+
+static SEQ: AtomicU64 = AtomicU64::new(0);
+static TRACE_FILE: OnceLock<Option<Mutex<std::fs::File>>> = OnceLock::new();
+
+type Controller = Box<dyn Fn(&str, &str) + Send + Sync>;
+static CONTROLLER: RwLock<Option<Controller>> = RwLock::new(None);
+
+fn trace_file() -> &'static Option<Mutex<std::fs::File>> {
+    TRACE_FILE.get_or_init(|| {
+        std::env::var_os("SWAY_VERIF_TRACE").and_then(|p| {
+            std::fs::OpenOptions::new()
+                .create(true)
+                .append(true)
+                .open(p)
+                .ok()
+                .map(Mutex::new)
+        })
+    })
+}
+
+/// Is tracing to a file enabled?
+pub fn tracing() -> bool {
+    trace_file().is_some()
+}
+
+/// Append one event. `fields` is the inside of a JSON object (without braces), may be empty.
+pub fn trace(ev: &str, fields: &str) {
+    if let Some(f) = trace_file() {
+        let mut f = f.lock().unwrap_or_else(|e| e.into_inner());
+        let seq = SEQ.fetch_add(1, Ordering::SeqCst);
+        let sep = if fields.is_empty() { "" } else { "," };
+        let _ = writeln!(
+            f,
+            "{{\"ev\":\"{ev}\",\"seq\":{seq},\"pid\":{}{sep}{fields}}}",
+            std::process::id()
+        );
+        let _ = f.flush();
+    }
+}
+
+/// Install (or remove) the step controller. It is called at every step point with the point's
+/// name and its state fields, and may block the calling thread.
+pub fn set_controller(c: Option<Controller>) {
+    *CONTROLLER.write().unwrap_or_else(|e| e.into_inner()) = c;
+}
+
+/// A step point: placed after a shared-state access, before the effect can be observed by others.
+pub fn step(point: &str, fields: &str) {
+    trace(point, fields);
+    let guard = CONTROLLER.read().unwrap_or_else(|e| e.into_inner());
+    if let Some(c) = guard.as_ref() {
+        c(point, fields);
+    }
+}
+
+static FAULT_COUNTER: AtomicU64 = AtomicU64::new(0);
+
+fn env_u64(name: &str) -> Option<u64> {
+    std::env::var(name).ok().and_then(|v| v.parse().ok())
+}
+
+/// A numbered fault point. Crashes the process (no unwinding, no destructors) when
+/// `SWAY_VERIF_CRASH_AT` equals this point's ordinal, returns an I/O error when
+/// `SWAY_VERIF_FAIL_AT` does. Ordinals count calls in this process, starting at 1.
+pub fn fault(point: &str) -> std::io::Result<()> {
+    if std::env::var_os("SWAY_VERIF_FAULTS").is_none() {
+        return Ok(());
+    }
+    let k = FAULT_COUNTER.fetch_add(1, Ordering::SeqCst) + 1;
+    trace("FaultPoint", &format!("\"k\":{k},\"point\":\"{point}\""));
+    if env_u64("SWAY_VERIF_CRASH_AT") == Some(k) {
+        trace("Crash", &format!("\"k\":{k},\"point\":\"{point}\""));
+        std::process::abort();
+    }
+    if env_u64("SWAY_VERIF_FAIL_AT") == Some(k) {
+        trace("IoFail", &format!("\"k\":{k},\"point\":\"{point}\""));
+        return Err(std::io::Error::other(format!(
+            "injected I/O failure at fault point {k} ({point})"
+        )));
+    }
+    Ok(())
+}
+
+/// Escape a string for embedding in a JSON string literal.
+pub fn esc(s: &str) -> String {
+    let mut o = String::with_capacity(s.len() + 2);
+    for c in s.chars() {
+        match c {
+            '"' => o.push_str("\\\""),
+            '\\' => o.push_str("\\\\"),
+            '\n' => o.push_str("\\n"),
+            '\r' => o.push_str("\\r"),
+            '\t' => o.push_str("\\t"),
+            c if (c as u32) < 0x20 => o.push_str(&format!("\\u{:04x}", c as u32)),
+            c => o.push(c),
+        }
+    }
+    o
+}
